@@ -106,6 +106,8 @@ def check_kernels(pid, work, log):
         stages.append(("Methods.v", translate2.generate, "TieMethods.v"))
     if spec.get("rangemap"):
         stages.append(("RangeMap.v", translate3.generate, "TieRangeMap.v"))
+    if spec.get("builder"):
+        stages.append(("BuilderGen.v", translate2.generate_builder, "TieBuilder.v"))
     files, names = [], []
     for (gfile, genfn, tie) in stages:
         try:
